@@ -45,9 +45,9 @@ type TdFace struct {
 }
 
 type TdCase struct {
-	Faces   []TdFace `json:"faces"`
-	Procs   int      `json:"procs"`
-	Rounds  int      `json:"rounds"`
+	Faces  []TdFace `json:"faces"`
+	Procs  int      `json:"procs"`
+	Rounds int      `json:"rounds"`
 }
 
 const tdPrefixes = 4
